@@ -960,6 +960,10 @@ func (c *TCPConn) writeWindowed(p []byte) (int, error) {
 		// a write that a deadline cut short leaves a torn frame on a stream that stays in use
 		c.N.Obs.IOFaulted(c.Role, "TornWrite", fmt.Sprintf("%s>%s|%d of %d bytes", c.Name, akey(c.raddr.IP, c.raddr.Port), written, len(p)))
 	}
+	if c.N.Obs != nil && written == 0 && len(p) > 0 && err == errTimeout {
+		// given up before the first byte: the observer was told of this write when it began
+		c.N.Obs.IOFaulted(c.Role, "DroppedWrite", fmt.Sprintf("%s>%s|%x", c.Name, akey(c.raddr.IP, c.raddr.Port), p[:min(len(p), 20)]))
+	}
 	return written, err
 }
 
